@@ -70,22 +70,22 @@ class Ctx:
         self.stats["functions"].add(f.where.split(" ")[1])
         return f
 
-    def cfg(self, f: Func, native=False, extra_raises=None) -> CFG:
-        key = (id(f.node), native, id(extra_raises) if extra_raises else None)
+    def cfg(self, f: Func, native=False, extra_raises=None, broad=False) -> CFG:
+        key = (id(f.node), native, id(extra_raises) if extra_raises else None, broad)
         if key not in self._cfgs:
-            g = CFG(f.node, native_cancel=native, extra_raises=extra_raises, hier=self.hier)
+            g = CFG(f.node, native_cancel=native, extra_raises=extra_raises, hier=self.hier, broad_handlers=broad)
             self._cfgs[key] = g
             self.stats["cfg_nodes"] += len(g.nodes)
         return self._cfgs[key]
 
     def explore(self, f: Func, native=False, inject=(), events=None, step=None, init=None, assume=None,
-                extra_raises=None, aliases=None) -> Result:
+                extra_raises=None, aliases=None, broad=False) -> Result:
         cache_key = None
         if events is None and extra_raises is None:
-            cache_key = (id(f.node), native, frozenset(inject), tuple(sorted((assume or {}).items())))
+            cache_key = (id(f.node), native, frozenset(inject), tuple(sorted((assume or {}).items())), broad)
             if cache_key in self._results:
                 return self._results[cache_key]
-        g = self.cfg(f, native, extra_raises)
+        g = self.cfg(f, native, extra_raises, broad)
         ex = Explorer(g, f.node, clsname=f.cls, summaries=self.summaries, inject=inject, events=events, step=step,
                       init=init, assume=assume, aliases=aliases)
         r = ex.run()
@@ -229,11 +229,11 @@ class Ctx:
         return events
 
     def paths(self, rule, f: Func, events, step, init, at_exit, instance="", native=False, inject=(), assume=None,
-              env=None, extra_raises=None, per_exit=True, allow_no_exit=False):
+              env=None, extra_raises=None, per_exit=True, allow_no_exit=False, broad=False):
         """run a typestate automaton over all paths; at_exit(kind, state, facts) -> message | None"""
         ev = self.events_from(events, env) if isinstance(events, list) else events
         r = self.explore(f, native=native, inject=inject, events=ev, step=step, init=init, assume=assume,
-                         extra_raises=extra_raises)
+                         extra_raises=extra_raises, broad=broad)
         g = r.cfg
         obs = []
         viol = {}
